@@ -161,12 +161,20 @@ class Result(object):
         return rc
 
 
+_PMAP_FN = [None]
+
+
 def _call(args):
     fn, a = args
     try:
         return ("ok", fn(*a))
     except BaseException:   # noqa
         return ("err", traceback.format_exc())
+
+
+def _call_global(a):
+    # the function is inherited through fork (closures and local functions need no pickling)
+    return _call((_PMAP_FN[0], a))
 
 
 def pmap(fn, arglist, procs=None, chunksize=1, maxtasks=None):
@@ -180,8 +188,12 @@ def pmap(fn, arglist, procs=None, chunksize=1, maxtasks=None):
         out = [_call((fn, a)) for a in arglist]
     else:
         ctx = multiprocessing.get_context("fork")
-        with ctx.Pool(procs, maxtasksperchild=maxtasks) as pool:
-            out = pool.map(_call, [(fn, a) for a in arglist], chunksize)
+        _PMAP_FN[0] = fn
+        try:
+            with ctx.Pool(procs, maxtasksperchild=maxtasks) as pool:
+                out = pool.map(_call_global, arglist, chunksize)
+        finally:
+            _PMAP_FN[0] = None
     res = []
     for tag, v in out:
         if tag == "err":
